@@ -43,19 +43,21 @@ func (m *catMerger) Merge(key uint32, values [][]byte) error {
 
 // --- per-execution world
 type world struct {
-	dir      string
-	store    kv.Store
-	fam      kv.Family
-	clock    int
-	readers  []*wReader
-	openSnap map[int]map[table.FileNumber]bool // harness-held open snapshots -> files of their version
-	nextSnap int
-	viol     []vio
-	wStart   int // logical time Commit was called (0 = not yet)
-	wEnd     int // logical time Commit returned
-	wOK      bool
-	outcome  []string
-	extra    map[uint32]string // keys other than k1 whose flush commit returned success -> value
+	dir        string
+	store      kv.Store
+	fam        kv.Family
+	clock      int
+	readers    []*wReader
+	openSnap   map[int]map[table.FileNumber]bool // harness-held open snapshots -> files of their version
+	nextSnap   int
+	viol       []vio
+	wStart     int // logical time Commit was called (0 = not yet)
+	wEnd       int // logical time Commit returned
+	wOK        bool
+	outcome    []string
+	extra      map[uint32]string // keys other than k1 whose flush commit returned success -> value
+	failThread int               // the thread whose opens count
+	failOpen   int               // > 0: the table open that brings it to 0 fails once (a transient fault: too many open files, ENOMEM)
 }
 
 type vio struct{ clause, site, detail string }
@@ -123,6 +125,13 @@ func installSeams() {
 	ts := table.VerifGetSeams()
 	realNew := ts.NewMMapStoreReader
 	table.VerifSetSeams(table.VerifSeams{NewMMapStoreReader: func(path, fileName string) (table.Reader, error) {
+		if w != nil && w.failOpen > 0 && vsched.Cur() == w.failThread {
+			w.failOpen--
+			if w.failOpen == 0 {
+				vsched.Logf("open of %s fails (injected)", fileName)
+				return nil, fmt.Errorf("injected: cannot map %s", fileName)
+			}
+		}
 		r, err := realNew(path, fileName)
 		if err != nil {
 			return nil, err
@@ -426,13 +435,23 @@ func tY() {
 	}
 }
 
+// RF: a reader whose lookup fails half way - the open of the second table of its key fails once. It gets an error
+// (or fewer values: not judged), closes its snapshot and is gone; what it did must not cost anybody else a reader.
+func tRF() {
+	h := takeSnap()
+	w.failThread, w.failOpen = vsched.Cur(), 2
+	_, _ = h.find(k1)
+	w.failOpen = 0
+	h.close()
+}
+
 func tC() { w.fam.Compact() }               // level-0 compaction (background goroutine = controlled thread)
 func tG() { kv.VerifStoreCompact(w.store) } // periodic job: needCompact/compact + reader cache cleanup
 func tD() { kv.VerifFamilyDeleteObsoleteFiles(w.fam) }
 
 func tR1G() { tR1(); tG() } // a reader that runs the periodic job (reader-cache cleanup) right after it closed its snapshot
 
-var threadFns = map[string]func(){"R1": tR1, "R2": tR2, "W": tW, "C": tC, "G": tG, "D": tD, "R1+G": tR1G, "X": tX, "Y": tY}
+var threadFns = map[string]func(){"R1": tR1, "R2": tR2, "W": tW, "C": tC, "G": tG, "D": tD, "R1+G": tR1G, "X": tX, "Y": tY, "RF": tRF}
 
 func body(threads []string) func() {
 	return func() {
@@ -524,7 +543,28 @@ func finish(rep *vevid.Report, scen string, x *vsched.Result) {
 	rep.Outcome(strings.Join(w.outcome, " "))
 	if err := kv.VerifCloseStore(w.store); err != nil {
 		viol("close-failed", "kv.store.close", err.Error())
+		return
 	}
+	// and what was committed is there after a restart of the store
+	opt := kv.DefaultStoreOption()
+	opt.TTL = ltoml.Duration(-time.Hour)
+	st2, err := kv.VerifNewStore("s", w.dir, opt)
+	if err != nil {
+		viol("reopen-failed", "kv.newStore", fmt.Sprintf("the store cannot be opened again after the explored schedule: %v", err))
+		return
+	}
+	if f2 := st2.GetFamily("f"); f2 == nil {
+		viol("reopen-failed", "kv.newStore", "family f is gone after reopen")
+	} else {
+		snap := f2.GetSnapshot()
+		var vals []string
+		e := snap.Load(k1, func(v []byte) error { vals = append(vals, string(v)); return nil })
+		snap.Close()
+		if e != nil || letters(vals) != want {
+			viol("recency", "reopen", fmt.Sprintf("after a restart of the store k1 reads %q (err %v), committed content is %q", letters(vals), e, want))
+		}
+	}
+	_ = kv.VerifCloseStore(st2)
 }
 
 type replay struct {
@@ -592,7 +632,7 @@ func main() {
 
 	// quick: the scenarios that mix a snapshot reader with the version-changing jobs, and two readers opening the
 	// same (not yet cached) tables while the reader cache is cleaned; thorough: all
-	scenarios := [][]string{{"R1", "W", "C"}, {"R2", "W", "C"}, {"R1", "R2", "C"}, {"R1", "C", "G"}, {"R1", "W", "G"}, {"R1", "C", "D"}, {"R1", "R1+G"}, {"R2", "R1+G"}, {"R1", "R2", "G"}, {"X", "Y"}}
+	scenarios := [][]string{{"R1", "W", "C"}, {"R2", "W", "C"}, {"R1", "R2", "C"}, {"R1", "C", "G"}, {"R1", "W", "G"}, {"R1", "C", "D"}, {"R1", "R1+G"}, {"R2", "R1+G"}, {"R1", "R2", "G"}, {"X", "Y"}, {"R2", "RF", "G"}}
 	if f.Thorough() {
 		scenarios = nil
 		all := []string{"R1", "R2", "W", "C", "G"}
@@ -603,7 +643,7 @@ func main() {
 				}
 			}
 		}
-		scenarios = append(scenarios, []string{"R1", "R1+G"}, []string{"R2", "R1+G"}, []string{"R1", "R1", "G"}, []string{"R1", "R1", "C"}, []string{"R1", "R2", "W", "C"}, []string{"R1", "C", "D"}, []string{"R2", "W", "D"}, []string{"X", "Y"}, []string{"X", "Y", "C"}, []string{"X", "Y", "R1"})
+		scenarios = append(scenarios, []string{"R1", "R1+G"}, []string{"R2", "R1+G"}, []string{"R1", "R1", "G"}, []string{"R1", "R1", "C"}, []string{"R1", "R2", "W", "C"}, []string{"R1", "C", "D"}, []string{"R2", "W", "D"}, []string{"X", "Y"}, []string{"X", "Y", "C"}, []string{"X", "Y", "R1"}, []string{"R2", "RF", "G"}, []string{"R1", "RF", "G"})
 	}
 	if v := os.Getenv("C02_SCENARIOS"); v != "" { // a part that runs its own scenario list: "R1,R2;R1,R2,G"
 		scenarios = nil
